@@ -77,8 +77,8 @@ func genSeq(c int64) seqFile {
 	var contracts []contract
 	kvKeys := [][]byte{}
 	nb := 5 + rng.Intn(lib.Pick(8, 36))
-	runtimes := map[string][]byte{"counter": evmdrive.CounterRuntime, "logger": evmdrive.LoggerRuntime, "store": evmdrive.StoreRuntime, "suicide": evmdrive.SuicideRuntime, "revert": evmdrive.RevertRuntime, "env": evmdrive.EnvRuntime}
-	rtNames := []string{"counter", "counter", "logger", "store", "suicide", "revert", "env", "env"}
+	runtimes := map[string][]byte{"counter": evmdrive.CounterRuntime, "logger": evmdrive.LoggerRuntime, "store": evmdrive.StoreRuntime, "suicide": evmdrive.SuicideRuntime, "revert": evmdrive.RevertRuntime, "env": evmdrive.EnvRuntime, "probe": evmdrive.ProbeRuntime}
+	rtNames := []string{"counter", "counter", "logger", "store", "suicide", "revert", "env", "env", "probe", "probe", "fuzz", "fuzz", "fuzz"}
 	for b := 0; b < nb; b++ {
 		var txs, kinds []string
 		ntx := rng.Intn(9)
@@ -93,7 +93,11 @@ func genSeq(c int64) seqFile {
 			switch x := rng.Float64(); {
 			case x < 0.15 || len(contracts) == 0:
 				name := rtNames[rng.Intn(len(rtNames))]
-				tx = evmdrive.SignedTx(k, nonce[l], nil, 0, 3000000, 0, evmdrive.Deploy(runtimes[name]))
+				code := runtimes[name]
+				if name == "fuzz" {
+					code = evmdrive.FuzzRuntime(rng.Intn)
+				}
+				tx = evmdrive.SignedTx(k, nonce[l], nil, 0, 3000000, 0, evmdrive.Deploy(code))
 				contracts = append(contracts, contract{evmdrive.ContractAddr(evmdrive.Addr(k), nonce[l]), name})
 				if name == "counter" {
 					sf.Counters = append(sf.Counters, hex.EncodeToString(evmdrive.ContractAddr(evmdrive.Addr(k), nonce[l]).Bytes()))
@@ -460,7 +464,7 @@ func main() {
 	}
 	evmdrive.Quiet()
 	run := lib.NewRun(prop, "exploration")
-	run.SetRule("seeded block sequences (5-12 blocks quick, 5-40 thorough; contract creations and calls of counter/logger/store/selfdestruct/revert contracts and of one that writes the block environment (BLOCKHASH of the four previous blocks, NUMBER, TIMESTAMP, COINBASE, DIFFICULTY, GASLIMIT) into storage, key-value txs incl. overwrites and repeats in a block, zero-value transfers, invalid txs: value > balance, stale and future nonce, broken signature, malformed RLP; empty blocks), each executed by the real EVM application in child processes under: one continuous process; a process boundary after block k (4 sampled k quick, every k thorough); several boundaries; 1/2/16 signature workers; a race-detector build. Non-trivial = distinct (sequence, history) pair compared block by block with the continuous run.")
+	run.SetRule("seeded block sequences (5-12 blocks quick, 5-40 thorough; contract creations and calls of counter/logger/store/selfdestruct/revert contracts of random byte strings deployed as code (invalid opcodes, underflows, PUSH data running past the end of the code), of a probe contract that stores the results of two dozen arithmetic / bit operations on constants, and of one that writes the block environment (BLOCKHASH of the four previous blocks, NUMBER, TIMESTAMP, COINBASE, DIFFICULTY, GASLIMIT) into storage, key-value txs incl. overwrites and repeats in a block, zero-value transfers, invalid txs: value > balance, stale and future nonce, broken signature, malformed RLP; empty blocks), each executed by the real EVM application in child processes under: one continuous process; a process boundary after block k (4 sampled k quick, every k thorough); several boundaries; 1/2/16 signature workers; a race-detector build. Non-trivial = distinct (sequence, history) pair compared block by block with the continuous run.")
 	run.Assume("restart = clean process exit between blocks (crashes inside a commit are C06)", "different CPUs/OS/library versions are out of reach", "inputs that crash the executor (empty tx, short governance payload) belong to C09 and are not generated here")
 	base := lib.Scratch(prop)
 	defer os.RemoveAll(base)
@@ -470,6 +474,8 @@ func main() {
 	run.Require("tx_kv", 20)
 	run.Require("tx_create-counter", 5)
 	run.Require("tx_call-env", 3)
+	run.Require("tx_call-probe", 3)
+	run.Require("tx_call-fuzz", 3)
 	os.Exit(run.Finish())
 }
 
